@@ -328,7 +328,8 @@ class ElementList(MutableSequence):
 
         # just copy the first element of the ElementProxy (e.g. message.pid = message2.pid)
         if isinstance(value, ElementProxy):
-            value = value[0].to_er7()
+            # (written with the delimiters of this element, which are the ones the text is parsed with below)
+            value = value[0].to_er7(self.element.encoding_chars)
 
         name = name.upper()
         reference = None if name is None else self.element.find_child_reference(name)
